@@ -5,6 +5,8 @@ With count=3 (second round) the prompt additionally asks for less obvious locati
 import json, sys
 pid, wt = sys.argv[1], sys.argv[2]
 count = int(sys.argv[3]) if len(sys.argv) > 3 else 2
+# a fourth argument "novel" (round 4) additionally names the kinds of change earlier rounds already produced
+novel = len(sys.argv) > 4 and sys.argv[4] == "novel"
 NUM = {2: 'TWO', 3: 'THREE'}[count]
 KS = '(1, 2)' if count == 2 else '(1, 2, 3)'
 EXTRA = '' if count == 2 else '''     Avoid the most obvious candidates (an off-by-one in a sampling constant, simply deleting a validity check): be
@@ -12,6 +14,11 @@ EXTRA = '' if count == 2 else '''     Avoid the most obvious candidates (an off-
      conversion / collect paths, Clone / PartialEq / Default / serde attributes, size computations, iterator state,
      interaction between two types - and about WHAT triggers it (a particular history, a particular alphabet or length
      class, a particular build profile, a particular element type).\n'''
+if novel:
+    EXTRA += '''     Earlier rounds of this exercise already produced the plainer kinds of change: off-by-one at block / superblock /
+     sample boundaries, dropped or weakened validity checks, truncating integer conversions, `#[serde(skip)]` on a cached
+     field, thread-local or lazily filled caches, overridden iterator methods (nth, fold), mishandled size hints, bound
+     checks rewritten in another unit that overflow. Look for kinds of bug that are NOT on that list.\n'''
 for l in open('/verif/properties.jsonl'):
     p = json.loads(l)
     if p['id'] == pid:
